@@ -59,6 +59,10 @@ type Step struct {
 	// differs from the DID's first one: the protocol then enables both, and the reveal value keeps the algorithm of the
 	// commitment it opens
 	Code uint64 `json:"code,omitempty"`
+	// Stale: an update built (from valid inputs) with a next update commitment that the DID's update chain has already
+	// consumed since its last recover; the state machine skips it wherever it is anchored, and the caller builds the
+	// next request with the same key again. The request behind it must take effect all the same.
+	Stale bool `json:"stale,omitempty"`
 }
 
 func (s Step) code(c *Case) uint64 {
@@ -246,6 +250,9 @@ func evalCase(c *Case) (string, string) {
 			update, recovery = s.NextUpdate, s.NextRecovery
 			origin = s.AnchorOrigin // the anchor origin supplied with a create / recover request takes effect too
 		case "update":
+			if s.Stale {
+				break // skipped by the state machine: no state change
+			}
 			nd, err := refdoc.Apply(doc, s.Patches)
 			if err != nil {
 				return "bad-case", "reference model cannot apply supplied patches: " + err.Error()
@@ -388,12 +395,13 @@ func opaqueDoc(t *rapid.T) map[string]interface{} {
 }
 
 func TestRoundTrip(t *testing.T) {
-	ev.Rule(chk, "rapid: per DID a create and 0-4 further operations (update / recover / deactivate), all built with client.New*Request from valid inputs: patch lists over all eight actions or opaque documents (create / recover; one in five with a section given as an empty list; one in three with a member whose name needs JSON-string or JSON-pointer escaping or starts like a protected section's name), anchor origins of several JSON types, windows (none / from / from+until), optional nonce and kid, each operation signed with the library's ecsigner / edsigner over keys of all 5 types, every fourth EC key having a public coordinate with a leading zero byte (JWK via pubkey.GetPublicKeyJWK, commitments via commitment.GetCommitment), both hash algorithms - one DID in three migrates, i.e. later requests are built with the other algorithm (next commitments, delta hash) while their reveal value opens a commitment made under the first one; oracle: Parse accepts under a protocol enabling exactly the used algorithms; ParseOperation + ParseSignedDataFor* return exactly the supplied suffix, commitments, patches (JSON-equal), reveal value, key, anchor origin and window; suffix == independent hash of the suffix data; after anchoring inside the window Resolve shows exactly the kit/refdoc prediction (document, commitments, deactivated); non-trivial = key type other than P-256, or sha2-512, or a window, or >= 3 patches")
+	ev.Rule(chk, "rapid: per DID a create and 0-4 further operations (update / recover / deactivate), all built with client.New*Request from valid inputs (one update in six of a DID with earlier updates names an update commitment its chain has already consumed as its next one: it parses back like any other, is skipped by the state machine, and the request built next with the same key must take effect behind it): patch lists over all eight actions or opaque documents (create / recover; one in five with a section given as an empty list; one in three with a member whose name needs JSON-string or JSON-pointer escaping or starts like a protected section's name), anchor origins of several JSON types, windows (none / from / from+until), optional nonce and kid, each operation signed with the library's ecsigner / edsigner over keys of all 5 types, every fourth EC key having a public coordinate with a leading zero byte (JWK via pubkey.GetPublicKeyJWK, commitments via commitment.GetCommitment), both hash algorithms - one DID in three migrates, i.e. later requests are built with the other algorithm (next commitments, delta hash) while their reveal value opens a commitment made under the first one; oracle: Parse accepts under a protocol enabling exactly the used algorithms; ParseOperation + ParseSignedDataFor* return exactly the supplied suffix, commitments, patches (JSON-equal), reveal value, key, anchor origin and window; suffix == independent hash of the suffix data; after anchoring inside the window Resolve shows exactly the kit/refdoc prediction (document, commitments, deactivated); non-trivial = key type other than P-256, or sha2-512, or a window, or >= 3 patches")
 	ev.Rapid(t, chk, 300, 3000, func(t *rapid.T) {
 		code := rapid.SampledFrom([]uint64{asm.SHA256, asm.SHA512}).Draw(t, "hash")
 		c := &Case{Code: code, TimeDelta: uint64(rapid.SampledFrom([]int{600, 7207}).Draw(t, "timeDelta"))}
 		nk := 0
 		lzUsed := false
+		staleUsed := false
 		usedLZ := map[string]bool{}
 		newKey := func() *keys.Key {
 			nk++
@@ -440,6 +448,8 @@ func TestRoundTrip(t *testing.T) {
 		c.Steps = append(c.Steps, st)
 		n := rapid.IntRange(0, 4).Draw(t, "furtherOps")
 		tm := uint64(100)
+		curUpdCommit := st.NextUpdate // the update commitment in force
+		var pastCommits []string      // update commitments consumed since the create / the last recover
 		for i := 0; i < n; i++ {
 			tm += uint64(rapid.IntRange(1, 50).Draw(t, "dt"))
 			kind := rapid.SampledFrom([]string{"update", "update", "recover", "deactivate"}).Draw(t, "kind")
@@ -474,6 +484,12 @@ func TestRoundTrip(t *testing.T) {
 				s.SigningJWK = res.NormalizeAny(updJ).(map[string]interface{})
 				s.Reveal = asm.Reveal(withNonce(updK, useNonce), updCode)
 				s.NextUpdate = commit(t, nj, sc)
+				if len(pastCommits) > 0 && rapid.IntRange(0, 5).Draw(t, "staleNextCommitment") == 0 {
+					s.NextUpdate = rapid.SampledFrom(pastCommits).Draw(t, "consumedCommitment")
+					s.Stale = true
+					staleUsed = true
+					nontrivial = true
+				}
 				s.Patches = gen.ValidPatches(t, 4, gen.PatchOpts{Actions: []string{"add-public-keys", "remove-public-keys", "add-services", "remove-services", "add-also-known-as", "remove-also-known-as", "ietf-json-patch"}})
 				nontrivial = nontrivial || len(s.Patches) >= 3 || updK.Type != keys.P256
 				r, err := client.NewUpdateRequest(&client.UpdateRequestInfo{DidSuffix: suffixOf(c, code), Patches: toPatches(t, s.Patches), UpdateCommitment: s.NextUpdate, UpdateKey: updJ,
@@ -482,7 +498,11 @@ func TestRoundTrip(t *testing.T) {
 					t.Fatalf("NewUpdateRequest rejected valid inputs: %v", err)
 				}
 				s.Request = r
-				updK, updJ, updCode = next, nj, sc
+				if !s.Stale {
+					pastCommits = append(pastCommits, curUpdCommit)
+					curUpdCommit = s.NextUpdate
+					updK, updJ, updCode = next, nj, sc
+				}
 			case "recover":
 				nu, nr := newKey(), newKey()
 				nuj, nrj := libJWK(t, nu, useNonce), libJWK(t, nr, useNonce)
@@ -506,6 +526,7 @@ func TestRoundTrip(t *testing.T) {
 					t.Fatalf("NewRecoverRequest rejected valid inputs: %v", err)
 				}
 				s.Request = r
+				pastCommits, curUpdCommit = nil, s.NextUpdate
 				updK, updJ, recK, recJ, updCode, recCode = nu, nuj, nr, nrj, sc, sc
 			default:
 				s.KeyType, s.Alg, s.Crv = recK.Type.String(), recK.Type.Alg(), recK.Type.Crv()
@@ -529,7 +550,7 @@ func TestRoundTrip(t *testing.T) {
 		for _, s := range c.Steps {
 			types = append(types, "op:"+s.Type, "sign:"+s.KeyType)
 		}
-		ev.Record(chk, nontrivial, ev.Hash(c), append(types, fmt.Sprintf("hash:%d", code), fmt.Sprintf("migrates-hash-algorithm:%v", migrate), fmt.Sprintf("leading-zero-coordinate-key:%v", lzUsed))...)
+		ev.Record(chk, nontrivial, ev.Hash(c), append(types, fmt.Sprintf("hash:%d", code), fmt.Sprintf("migrates-hash-algorithm:%v", migrate), fmt.Sprintf("leading-zero-coordinate-key:%v", lzUsed), fmt.Sprintf("stale-update-in-front:%v", staleUsed))...)
 		ev.SampleFn(chk, func() interface{} {
 			var out []string
 			for _, s := range c.Steps {
